@@ -292,6 +292,63 @@ func main() {
 		fmt.Printf("  (%q, %q, %q, %q, %q)%s\n", s.file, s.fn, base, s.callee, s.guard, sep)
 	}
 	fmt.Println("]")
+	// admission functions outside the pool: does any of them verify or insert inside a goroutine /
+	// function literal (where a captured loop variable or a lost ordering could detach the verdict
+	// from the element it belongs to)?
+	fmt.Println("\n/-- (file, function, what) for every `go` statement or function literal inside an admission")
+	fmt.Println("    function that contains a VerifyTransaction / AddTransaction / forwarder call -/")
+	fmt.Println("def admissionGoroutines : List (String × String × String) := [")
+	var gos []string
+	adm := map[string]bool{}
+	for _, s := range sites {
+		if !strings.HasPrefix(s.file, "src/service/transaction_pool.go") {
+			adm[s.file+" "+s.fn] = true
+		}
+	}
+	for _, p := range files {
+		rel, _ := filepath.Rel(repo, p)
+		for _, d := range parsed[p].Decls {
+			fd, ok := d.(*ast.FuncDecl)
+			if !ok || fd.Body == nil || !adm[rel+" "+recvName(fd)] {
+				continue
+			}
+			ast.Inspect(fd.Body, func(n ast.Node) bool {
+				var inner ast.Node
+				what := ""
+				switch x := n.(type) {
+				case *ast.GoStmt:
+					inner, what = x.Call, "go"
+				case *ast.FuncLit:
+					inner, what = x.Body, "func-literal"
+				}
+				if inner == nil {
+					return true
+				}
+				hit := false
+				ast.Inspect(inner, func(m ast.Node) bool {
+					if c, ok := m.(*ast.CallExpr); ok {
+						nm := ""
+						switch f := c.Fun.(type) {
+						case *ast.SelectorExpr:
+							nm = f.Sel.Name
+						case *ast.Ident:
+							nm = f.Name
+						}
+						if nm == "VerifyTransaction" || (track[nm] && nm != "push" && nm != "add") {
+							hit = true
+						}
+					}
+					return true
+				})
+				if hit {
+					gos = append(gos, fmt.Sprintf("  (%q, %q, %q)", rel, recvName(fd), what))
+				}
+				return true
+			})
+		}
+	}
+	fmt.Println(strings.Join(gos, ",\n"))
+	fmt.Println("]")
 	fmt.Printf("\n/-- number of Go files scanned -/\ndef admissionFilesScanned : Nat := %d\n", len(files))
 	fmt.Println("\nend Rangers.Generated.C07")
 	_ = rows
